@@ -184,16 +184,18 @@ func init() {
 	// ---------------------------------------------------------------- C24
 	register(&checkSpec{
 		ID:   "C24",
-		Rule: "scripts assembled from up to K statements chosen by symbolic selectors out of 16 statement templates (function/method declarations with comments and result lists, const/type/var incl. parenthesized blocks, assignments, calls, function-literal calls and assignments, if-blocks, commented statements) joined by symbolic separators (newline, blank line, semicolon); chunk boundaries and classes are known by construction and give the expected output",
+		Rule: "scripts assembled from up to K statements chosen by symbolic selectors out of 16 (EDGE=1: 18, plus an optional leading import declaration and an optional missing final newline; the two extra templates are a statement with a trailing comment and a called function literal with a result type) statement templates (function/method declarations with comments and result lists, const/type/var incl. parenthesized blocks, assignments, calls, function-literal calls and assignments, if-blocks, commented statements) joined by symbolic separators (newline, blank line, semicolon); chunk boundaries and classes are known by construction and give the expected output",
 		Assumptions: []string{
 			"bound: at most K top-level statements from the 16 templates and 3 separators; other statement shapes are outside the claim",
 			"FMT=1: the SourceEx clause runs the real format.Source (parser, printer, text/tabwriter) in the engine on the original, on the rearrangement and through SourceEx",
 		},
 		Harnesses: []harnessSpec{
 			{Name: "VxC24", Pkg: "github.com/goplus/xgo/format/formatutil", Files: []string{"c24/c24.go"},
-				Quick: map[string]int{"K": 3, "NT": 16, "FMT": 0, "LEAD": 0}, Thorough: map[string]int{"K": 4, "NT": 16, "FMT": 0, "LEAD": 0}, MaxSteps: 20_000_000},
+				Quick: map[string]int{"K": 3, "NT": 16, "FMT": 0, "LEAD": 0, "EDGE": 0}, Thorough: map[string]int{"K": 4, "NT": 16, "FMT": 0, "LEAD": 0, "EDGE": 0}, MaxSteps: 20_000_000},
 			{Name: "VxC24", Pkg: "github.com/goplus/xgo/format/formatutil", Files: []string{"c24/c24.go"},
-				Quick: map[string]int{"K": 2, "NT": 16, "FMT": 1, "LEAD": 1}, Thorough: map[string]int{"K": 3, "NT": 16, "FMT": 1, "LEAD": 1}, MaxSteps: 20_000_000},
+				Quick: map[string]int{"K": 2, "NT": 16, "FMT": 1, "LEAD": 1, "EDGE": 0}, Thorough: map[string]int{"K": 3, "NT": 16, "FMT": 1, "LEAD": 1, "EDGE": 0}, MaxSteps: 20_000_000},
+			{Name: "VxC24", Pkg: "github.com/goplus/xgo/format/formatutil", Files: []string{"c24/c24.go"},
+				Quick: map[string]int{"K": 2, "NT": 18, "FMT": 1, "LEAD": 0, "EDGE": 1}, Thorough: map[string]int{"K": 3, "NT": 18, "FMT": 1, "LEAD": 0, "EDGE": 1}, MaxSteps: 20_000_000},
 		},
 	})
 
